@@ -568,6 +568,13 @@ class Analysis:
             n = self.as_poly(args[1])
             if p and n is not None:
                 return ("P", p[1], p[2], n)
+        if fn in ("core::slice::<impl [T]>::split_at", "core::slice::<impl [T]>::split_at_mut", "core::slice::<impl [T]>::split_at_unchecked",
+                  "core::slice::<impl [T]>::split_at_mut_unchecked") and len(args) == 2:
+            p = ptr()
+            mid = self.as_poly(args[1])
+            if p and p[3] is not None and mid is not None and targs:
+                cs.no_effects = True
+                return ("A", "tuple", (("P", p[1], p[2], mid), ("P", p[1], p[2] + mid * te.size(targs[0]), p[3] - mid)))
         if fn in ("core::slice::<impl [T]>::get_unchecked", "core::slice::<impl [T]>::get_unchecked_mut",
                   "core::ops::Index::index", "core::ops::IndexMut::index_mut"):
             p = ptr()
